@@ -32,7 +32,7 @@ def exhaustive(tier):
 
 def model_runs(tier):
     from harness import algo
-    return algo.names(tier, "pair") + [dict(name="FAGen2-algebra", module="FAGen2", timeout=900,
+    return algo.names(tier, "pair") + algo.product_intersection(tier) + [dict(name="FAGen2-algebra", module="FAGen2", timeout=900,
                  cfg=c02.gen2_cfg("enfa", "enfa", 2, ("a", "b"), ("a", "b"), 1, 1, 0, 1, 1, "indep",
                                   invariants=("EquivOK", "AlgebraOK")))]
 
